@@ -207,7 +207,7 @@ func NewRun(h Hist) *Run {
 	for i, b := range h.Blobbers {
 		bk := reg(i)
 		wk := reg(refWallet + i)
-		must(w.Exec(bk, "add_blobber", stg.AddBlobberInput(bk, b.Cap, b.WP, b.RP, wk.ID, b.Charge, "http://b"+fmt.Sprint(i)), 0, r.Now), "add_blobber")
+		must(w.Exec(bk, "add_blobber", stg.AddBlobberInput(bk, b.Cap, b.WP, b.RP, wk.ID, b.Charge, "http://b"+fmt.Sprint(i), h.Ent), 0, r.Now), "add_blobber")
 		sk := reg(refStaker + i)
 		if b.Stake > 0 {
 			w.SetBalance(sk.ID, b.Stake)
